@@ -515,11 +515,11 @@ def run(ctx):
     work += [(b, 4 if quick else 6, CARRY) for b in ([300] if quick else [1, 300, 65500])]
     # broadcasts the pairing has to refuse now and may have to accept later (far ahead, then the window moves over them); long runs of forgeries
     FAR = ["far:+120", "far:+150", "replay-rec", "+1", "+50", "+99", "same", "regular-adv", "wrong-key", "restart"]
-    work += [(b, 4 if quick else 5, FAR, f) for b in ([300] if quick else [1, 300, 65300]) for f in FAR if f != "replay-rec"]
+    work += [(b, 4, FAR, f) for b in ([300] if quick else [300, 65300]) for f in FAR if f != "replay-rec"]
     LI = ["listener:off", "listener:on", "+1", "+2", "same", "-1", "old:1", "regular-adv", "wrong-key"]
-    work += [(b, 4 if quick else 6, LI, f) for b in ([300] if quick else [1, 300, 65500]) for f in ("listener:off", "+1")]
-    FL = ["flood:wrong-key", "+1", "far:+120", "replay-rec"] if quick else ["flood:wrong-key", "flood:bitflips", "+1", "+50", "same", "far:+120", "replay-rec"]
-    work += [(b, 2 if quick else 3, FL, f) for b in ([300] if quick else [1, 300]) for f in FL if f != "replay-rec"]
+    work += [(b, 4 if quick else 5, LI, f) for b in ([300] if quick else [300, 65500]) for f in ("listener:off", "+1")]
+    FL = ["flood:wrong-key", "+1", "far:+120", "replay-rec"] if quick else ["flood:wrong-key", "flood:bitflips", "+1", "far:+120", "replay-rec"]
+    work += [(b, 2, FL, f) for b in [300] for f in FL if f != "replay-rec"]
     ctx.pmap(_bfs, work)
     # broadcasts while the pairing holds a GATT session (the once-per-session bump of the state number, the roll-over and its key request in flight)
     from vt import explore as _ex
@@ -528,7 +528,7 @@ def run(ctx):
     for cp, d in ((dict(base=65534), 6 if quick else 8), (dict(base=300, alphabet=["sub", "timer", "notify", "bcast:old", "drop", "use"]), 5 if quick else 7),
                   (dict(base=300, alphabet=c18_conn.ALPH_POLL), 8 if quick else 9),
                   # subscribed characteristics the accessory reports by broadcast: a repeated copy of an accepted broadcast, nothing else going on
-                  (dict(base=300, ev_flags=(9, 10), alphabet=["sub", "timer", "drop", "bcast:+1", "bcast:same", "regular-adv", "use"]), 6 if quick else 8)):
+                  (dict(base=300, ev_flags=(9, 10), alphabet=["sub", "timer", "drop", "bcast:+1", "bcast:same", "regular-adv", "use"]), 6 if quick else 7)):
         cp = dict(cp, seed=ctx.seed)
         cw += [(cp, r, d) for r in _ex.roots(lambda: c18_conn.ConnH(cp), 2)]
     ctx.pmap(_conn, cw)
